@@ -117,13 +117,21 @@ func runRTPScenario(s *Scenario) *failure {
 		keyType, pType, min = 19, 1, 2
 	}
 	slice := func(typ, size int, seed uint32) Frame {
-		return Frame{NalType: typ, NRI: 2, Size: min + size, Seed: seed}
+		return Frame{NalType: typ, NRI: 2, Size: min + size, Seed: seed, Magic: 1 + int(seed+uint32(s.PS))%len(magicPrefixes)}
 	}
 	// audio: s.AudioLead AUs go out before anything else (they reach the muxer
 	// ahead of the in-band parameter sets; whether they are dropped or kept is
 	// read off the tag count below), later AUs follow each key frame
 	var lead []Frame
-	au := func(size int, seed uint32) Frame { return Frame{Audio: true, Size: size, Seed: seed} }
+	// the access units start like an ADTS header etc. (RTP mpeg4-generic AUs are arbitrary bytes)
+	au := func(size int, seed uint32) Frame {
+		f := Frame{Audio: true, Size: size, Seed: seed, Magic: 1 + int(seed)%len(magicPrefixes)}
+		if seed%2 == 0 {
+			f.Magic = 1 + int(seed/2+uint32(s.PS))%5 // one of the ADTS look-alikes
+			f.Size = 7 + int(seed/2)%3               // 7..9: exactly an ADTS header's length
+		}
+		return f
+	}
 	if s.Audio {
 		for i := 0; i < s.AudioLead; i++ {
 			f := au(100+i, uint32(100+i))
